@@ -6,10 +6,12 @@ import (
 	"context"
 	"crypto/sha256"
 	"database/sql"
+	"encoding/binary"
 	"encoding/json"
 	"fmt"
 	"io"
 	"math/rand"
+	"os"
 	"sort"
 	"strings"
 	"sync"
@@ -35,6 +37,8 @@ type spec struct {
 	// 0 write, 16 sync, 21 sync-and-wait, 25 snapshot, 27 compact, 100/101 disk full
 	// on/off, 230..233 litestream checkpoint PASSIVE/FULL/RESTART/TRUNCATE)
 	Script []int `json:"script,omitempty"`
+	// Demo selects a pinned directed history (kind "D"); see runD.
+	Demo string `json:"demo,omitempty"`
 }
 
 func init() {
@@ -43,6 +47,8 @@ func init() {
 		Level: "exploration",
 		Rule: "workload A: generated sequential histories in which syncs, chunked syncs (MaxSyncWALBytes of 1..3 frames), checkpoints, snapshots and compactions run while an application write transaction with spilled, uncommitted frames (and a poison row) is open, then committed or rolled back; " +
 			"workload B: a live writer goroutine (multi-statement transactions, rollbacks) against monitor-driven litestream (1-5 ms) plus a maintenance goroutine issuing Snapshot/Checkpoint(all modes)/Compact/Sync. " +
+			"workload S: live writer, no background sync, a litestream checkpoint (1 ms busy timeout in half of the runs: bookkeeping writes fail) immediately followed by a snapshot; " +
+			"workload D: pinned directed histories in which the application restarts a completely checkpointed WAL between litestream's validation of the frames and its copy of the page data (DB.sync and the level-9 stream; suspension point = litestream's own log call, counters D_window_reached / D_wal_restarted_inside_window); " +
 			"After each history every TXID listed at any level (and every integer 1..max) is restored and must equal, by logical dump hash, the state after some application commit k(n) (no poison rows, integrity ok), k monotone in n, L0 gapless from 1 with MinTXID==MaxTXID. " +
 			"distinct = hash(kind, config, op sequence / seed); non-trivial = >=1 sync ran with uncommitted frames present (A) or >=20 commits raced the monitors (B), and >=3 distinct k(n)",
 		Assumptions: []string{"file replica client only", "ledger dump hash identifies a committed state (sha256)", "modernc SQLite executes the application side"},
@@ -83,6 +89,16 @@ func cases(run *vf.Run) ([]json.RawMessage, error) {
 		cfg.MaxSyncWALFrames = 0
 		cfg.MaxSyncLTXFiles = 0
 		out = append(out, vf.Spec(spec{Kind: "S", Seed: vf.SubSeed(run.Seed, "C02S-case", i), Cfg: cfg, RunMs: ms}))
+	}
+	// D: pinned directed histories (independent of VERIF_SEED): litestream is opened
+	// over a completely checkpointed WAL and the application's next commits restart
+	// that WAL between litestream's validation of the frames and its copy of the page
+	// data (litestream's own log call between the two is the suspension point).
+	for i, d := range demos {
+		for j, ps := range []int{4096, 1024, 8192} {
+			cfg := hist.Config{PageSize: ps, AutoVacuum: []int{0, 2, 1}[j], MinCheckpointPageN: 1000, MaxSyncWALFrames: 0}
+			out = append(out, vf.Spec(spec{Kind: "D", Demo: d, Seed: int64(7001 + 10*i + j), Cfg: cfg}))
+		}
 	}
 	// F: like A, plus "disk full" episodes on the litestream meta directory (local
 	// LTX staging area) around litestream operations
@@ -131,6 +147,9 @@ func runCase(run *vf.Run, raw json.RawMessage, dir string) *vf.Result {
 	}
 	if s.Kind == "B" || s.Kind == "S" {
 		return runB(s, dir, res)
+	}
+	if s.Kind == "D" {
+		return runD(s, dir, res)
 	}
 	// "A" and "F" share the sequential runner
 	return runA(s, dir, res)
@@ -307,6 +326,160 @@ func runA(s spec, dir string, res *vf.Result) *vf.Result {
 		res.Nontrivial = failedUnderFault >= 1 && distinctK >= 3
 	}
 	res.Sample = map[string]any{"kind": s.Kind, "cfg": s.Cfg.String(), "ops": strings.Join(ops, " "), "syncs_with_uncommitted": syncsWithUncommitted, "distinct_k": distinctK}
+	return res
+}
+
+// ---------------------------------------------------------------------------
+// directed histories D
+
+var demos = []string{
+	"restart-during-first-sync",      // no local state, new destination: the first level-0 file (a snapshot) is being written
+	"restart-during-reopened-sync",   // litestream restarted with its meta directory: incremental or snapshot sync
+	"restart-during-level9-snapshot", // the level-9 snapshot stream is reading
+}
+
+// walSalt1 reads salt-1 of the WAL header through a descriptor on the -wal file
+// (never on the database file: closing one would drop the process's POSIX locks).
+func walSalt1(dbPath string) uint32 {
+	f, err := os.Open(dbPath + "-wal")
+	if err != nil {
+		return 0
+	}
+	defer f.Close()
+	var hdr [32]byte
+	if _, err := io.ReadFull(f, hdr[:]); err != nil {
+		return 0
+	}
+	return binary.BigEndian.Uint32(hdr[16:])
+}
+
+func runD(s spec, dir string, res *vf.Result) *vf.Result {
+	rng := rand.New(rand.NewSource(s.Seed))
+	e, err := hist.NewEnv(dir, s.Cfg, rng, res)
+	if err != nil {
+		res.HarnessErr = err.Error()
+		return res
+	}
+	defer e.Close()
+	ctx := context.Background()
+	herr := func(f string, a ...any) *vf.Result {
+		res.HarnessErr = fmt.Sprintf(f, a...)
+		return res
+	}
+	writes := func(kinds ...string) error {
+		for _, k := range kinds {
+			if _, err := e.AppWriteKind(k); err != nil {
+				return err
+			}
+		}
+		return nil
+	}
+	if err := writes("ins-small", "ins-multi", "ins-big", "ins-small"); err != nil {
+		return herr("%v", err)
+	}
+	{
+		// an earlier litestream run (its bookkeeping tables exist in the database)
+		if err := e.StartLS(); err != nil {
+			return herr("open litestream: %v", err)
+		}
+		if err := e.LS.SyncAndWait(ctx); err != nil {
+			return herr("demo: initial sync failed: %v", err)
+		}
+		cctx, cancel := context.WithTimeout(ctx, 20*time.Second)
+		err := e.LS.Close(cctx)
+		cancel()
+		if err != nil {
+			return herr("demo: close failed: %v", err)
+		}
+		if s.Demo == "restart-during-first-sync" {
+			// a new backup destination and no local state: the next run starts at TXID 1
+			if err := os.RemoveAll(e.LS.MetaPath()); err != nil {
+				return herr("demo: %v", err)
+			}
+			if err := os.RemoveAll(e.RepPath); err != nil {
+				return herr("demo: %v", err)
+			}
+		}
+	}
+	// litestream is down: the application commits and checkpoints everything; the
+	// WAL keeps its frames and can be restarted by the next writer
+	if err := writes("ins-multi", "update", "ins-big", "ins-small", "ins-multi"); err != nil {
+		return herr("%v", err)
+	}
+	e.AppCheckpoint("FULL")
+
+	// the suspension point: litestream's own log call between building the page map
+	// and copying the page data
+	at := "encode header"
+	if s.Demo == "restart-during-level9-snapshot" {
+		at = "encode snapshot header"
+	}
+	var armed, fired atomic.Bool
+	var restarted atomic.Bool
+	e.Logs.Hook = func(msg string) {
+		if msg != at || !armed.Load() || fired.Swap(true) {
+			return
+		}
+		before := walSalt1(e.DBPath)
+		// enough frames for the new generation to grow past the old one
+		if err := writes("ins-big", "ins-multi", "ins-big", "ins-multi", "ins-big", "ins-multi", "ins-big", "ins-multi", "ins-big", "ins-multi", "ins-big", "ins-multi"); err != nil {
+			res.Logf("demo: application write inside the window: %v", err)
+		}
+		if after := walSalt1(e.DBPath); after != before {
+			restarted.Store(true)
+		}
+		res.Logf("demo: application committed inside the copy window at %q: wal salt-1 %d -> %d", msg, before, walSalt1(e.DBPath))
+	}
+	if err := e.StartLS(); err != nil {
+		return herr("open litestream: %v", err)
+	}
+	if s.Demo == "restart-during-level9-snapshot" {
+		if err := e.LS.SyncAndWait(ctx); err != nil {
+			return herr("demo: sync after reopen failed: %v", err)
+		}
+		armed.Store(true)
+		_, err := e.LS.Snapshot(ctx)
+		e.Logf("Snapshot with the WAL restarted while its stream was reading: err=%v", err)
+		if err == nil {
+			res.Count("D_snapshot_published_despite_restart", 1)
+		} else {
+			res.Count("D_snapshot_refused", 1)
+		}
+	} else {
+		armed.Store(true)
+		err := e.LS.Sync(ctx)
+		e.Logf("DB.Sync with the WAL restarted during its copy: err=%v", err)
+		if err == nil {
+			res.Count("D_sync_ok_despite_restart", 1)
+		} else {
+			res.Count("D_sync_refused", 1)
+		}
+	}
+	armed.Store(false)
+	if fired.Load() {
+		res.Count("D_window_reached", 1)
+	}
+	if restarted.Load() {
+		res.Count("D_wal_restarted_inside_window", 1)
+	}
+	// normal operation afterwards
+	for i := 0; i < 3; i++ {
+		if err := writes("ins-small", "update"); err != nil {
+			return herr("%v", err)
+		}
+		err := e.LS.SyncAndWait(ctx)
+		e.Logf("SyncAndWait err=%v", err)
+	}
+	if _, err := e.LS.Snapshot(ctx); err == nil {
+		res.Count("snapshots", 1)
+	}
+	if err := e.LS.SyncAndWait(ctx); err != nil {
+		e.Logf("final SyncAndWait err=%v", err)
+	}
+	distinctK := checkAllTXIDs(e, res)
+	res.Sig = fmt.Sprintf("D-%s-%s", s.Demo, s.Cfg.String())
+	res.Nontrivial = restarted.Load() && distinctK >= 2
+	res.Sample = map[string]any{"kind": "D", "demo": s.Demo, "cfg": s.Cfg.String(), "window_reached": fired.Load(), "wal_restarted_inside_window": restarted.Load(), "distinct_k": distinctK}
 	return res
 }
 
@@ -546,10 +719,20 @@ func runB(s spec, dir string, res *vf.Result) *vf.Result {
 					hmu.Lock()
 					res.Count("S_checkpoint_"+m+"_ok", 1)
 					hmu.Unlock()
+				} else if strings.Contains(err.Error(), "wal restarted during copy") {
+					// the application restarted a completely checkpointed WAL while
+					// litestream was copying its frames: the copy was refused
+					hmu.Lock()
+					res.Count("S_sync_refused_wal_restarted_during_copy", 1)
+					hmu.Unlock()
 				}
 				if _, err := e.LS.Snapshot(ctx); err == nil {
 					hmu.Lock()
 					res.Count("S_snapshot_ok", 1)
+					hmu.Unlock()
+				} else if strings.Contains(err.Error(), "wal restarted during copy") {
+					hmu.Lock()
+					res.Count("S_snapshot_refused_wal_restarted_during_copy", 1)
 					hmu.Unlock()
 				}
 				maint.Add(1)
